@@ -9,7 +9,7 @@ formula computes (e.g. floor(a / b) for //); a discrepancy no model explains get
 import math
 import re
 
-from vlib import creach, cy, diff, values
+from vlib import core, creach, cy, diff, values
 from vlib.gen import floatstr, numblocks as nb
 
 ARITH = ['+', '-', '*', '/', '//', '%']
@@ -230,10 +230,10 @@ def fz9z(s): return float(s)
 '''
 PARSE_FUNCS = {  # name -> (module, arg kind, helper regex)
     'fz0z': ('c06p', 'str', r'__Pyx_PyUnicode_AsDouble'), 'fz1z': ('c06p', 'bytes', r'__Pyx_PyBytes_AsDouble'),
-    'fz2z': ('c06p', 'bytearray', r'__Pyx_PyByteArray_AsDouble'), 'fz3z': ('c06p', 'object', r'__Pyx_PyObject_AsDouble'),
+    'fz2z': ('c06p', 'bytearray', r'__Pyx_PyByteArray_AsDouble'), 'fz3z': ('c06p', 'object', r'__Pyx_PyObject_AsDouble|__Pyx_PyNumber_Float'),
     'fz4z': ('c06p', 'str', r'__Pyx_PyUnicode_AsDouble'),
     'fz5z': ('c06q', 'str', r'__Pyx_PyUnicode_AsDouble'), 'fz6z': ('c06q', 'bytes', r'__Pyx_PyBytes_AsDouble'),
-    'fz7z': ('c06q', 'object', r'__Pyx_PyObject_AsDouble'), 'fz8z': ('c06q', 'bytearray', r'__Pyx_PyByteArray_AsDouble'),
+    'fz7z': ('c06q', 'object', r'__Pyx_PyObject_AsDouble|__Pyx_PyNumber_Float'), 'fz8z': ('c06q', 'bytearray', r'__Pyx_PyByteArray_AsDouble'),
     'fz9z': ('c06q', 'str', r'__Pyx_PyUnicode_AsDouble'),
 }
 OBJECT_ARGS = ["S('1.5')", "S('1_0')", "S(' 1e+_5')", "B(b'2.5')", "B(b'1__0')", '1.5', 'F(2.5)', '7', '-2**70', '10**400', 'True',
@@ -441,10 +441,17 @@ def main(ck):
     acc = sum(1 for s in percall_texts if _accepts(s))
     ck.cov['percall_texts'] = len(percall_texts)
     pool_texts = [s for s, _ in floatstr.texts(ck.rng('pooltexts'), n_txt)]
-    poolsB = {'str': [(s,) for s in pool_texts], 'bytes': [(floatstr.to_bytes(s),) for s in pool_texts],
-              'bytearray': [(bytearray(floatstr.to_bytes(s)),) for s in pool_texts]}
+    # Texts that meet the structural precondition of the copy-buffer overflow (non-ASCII str, stripped length >= 39) may
+    # corrupt the heap of the process that evaluates them; they are evaluated as str only in separate "zone" processes
+    # (run under PYTHONMALLOC=malloc so that the one-byte overflow aborts instead of silently damaging later cases).
+    zone_limit = ck.pick(60, 600)
+    zone_pool = [s for s in pool_texts if overflow_candidate(s)][:zone_limit]
+    zone_percall = [s for s in percall_texts if overflow_candidate(s)]
+    poolsB = {'str': [(s,) for s in pool_texts if not overflow_candidate(s)], 'bytes': [(floatstr.to_bytes(s),) for s in pool_texts],
+              'bytearray': [(bytearray(floatstr.to_bytes(s)),) for s in pool_texts], 'zone': [(s,) for s in zone_pool]}
+    ck.cov['overflow_zone_texts'] = len(zone_pool) + len(zone_percall)
     poolspecB = nb.dump_pools(poolsB, tree.work, 'poolB')
-    pool_acc = sum(1 for (s,) in poolsB['str'] if _accepts(s))
+    pool_acc = sum(1 for s in pool_texts if _accepts(s))
     total_txt = len(percall_texts) + n_txt
     acc_frac = (acc + pool_acc) / float(total_txt)
     ck.cov['texts_accepted_by_cpython'] = acc + pool_acc
@@ -475,6 +482,8 @@ def main(ck):
             for h in hs:
                 parse_helpers[h] = parse_helpers.get(h, 0) + 1
             for s in (percall_texts if mod == 'c06p' or not ck.quick else percall_small):
+                if kind in ('str', 'object') and overflow_candidate(s):
+                    continue
                 cases.append({'f': name, 'a': arg_expr(kind, s), 't': 'float(%s)' % kind})
             if kind == 'object':
                 for e in OBJECT_ARGS:
@@ -483,9 +492,14 @@ def main(ck):
                     cases.append({'f': name, 'a': arg_expr('bytes', s), 't': 'float(object)/bytes'})
                     cases.append({'f': name, 'a': arg_expr('bytearray', s), 't': 'float(object)/bytearray'})
             pk = 'str' if kind == 'object' else kind
-            cases += nb.block_cases(name, pk, n_txt, 'float(%s)/random' % kind, bs=200)
+            cases += nb.block_cases(name, pk, len(poolsB[pk]), 'float(%s)/random' % kind, bs=200)
             runs.append({'label': 'B_%s_%s' % (mod, name), 'part': 'B', 'mod': mod, 'cases': cases, 'ref': refpath,
                          'setup': 'set_pools(%r)' % {pk: poolspecB[pk]}, 'nontrivial': bool(hs), 'pools': poolsB})
+            if kind in ('str', 'object'):
+                zc = [{'f': name, 'a': arg_expr(kind, s), 't': 'float(%s)/overflow-zone' % kind} for s in zone_percall]
+                zc += nb.block_cases(name, 'zone', len(poolsB['zone']), 'float(%s)/overflow-zone' % kind, bs=10)
+                runs.append({'label': 'Z_%s_%s' % (mod, name), 'part': 'B', 'mod': mod, 'cases': zc, 'ref': refpath, 'zone': True,
+                             'setup': 'set_pools(%r)' % {'zone': poolspecB['zone']}, 'nontrivial': bool(hs), 'pools': poolsB})
     ck.cov['parse_helpers_reached'] = parse_helpers
 
     # ------------------------------------------------------------------ run (each run_cases call = own processes)
@@ -493,7 +507,8 @@ def main(ck):
         return diff.run_cases(tree, dirs[r['mod']], r['mod'], r['cases'], ref=r['ref'], compare={'log': False},
                               env_mods=['vlib.values', 'vlib.gen.numblocks'], setup=r['setup'], tagdir='run' + r['label'],
                               timeout=1500, spec_extra={'max_mismatch_records': 5000},
-                              nproc=max(1, min(ck.pick(3, 8), (len(r['cases']) + 3999) // 4000)))
+                              extra_env={'PYTHONMALLOC': 'malloc'} if r.get('zone') else None, max_restarts=400 if r.get('zone') else 25,
+                              nproc=max(1, min(core.NCPU, ck.pick(3, 8), (len(r['cases']) + 3999) // 4000)))
     with ThreadPoolExecutor(ck.pick(4, 3)) as ex:
         results = list(ex.map(go, runs))
 
@@ -524,7 +539,7 @@ def main(ck):
                         cand = [eval(c['case']['a'], dict(vars(values)))[0]]
                     except Exception:
                         cand = []
-                if kind in ('str', 'object') and any(overflow_candidate(v) for v in cand):
+                if r.get('zone') and cand and all(overflow_candidate(v) for v in cand):
                     key = 'crash:float-parse:nonascii-str-copy-buffer-overflow'
                 else:
                     key = 'crash:float-parse:%s' % kind
